@@ -159,10 +159,7 @@ known("KF-C18-03", "C18", "util-reject", CI, "ok-vs-err", r"relax=nul-terminates
 known("KF-C18-04", "C18", "util-reject", CI, "ok-vs-err", r"relax=compact:str-any-escape",
       'Compact accepts "\"\\[\"" and "\"\\u\""', "internal/encoder/compact.go compactString: a backslash protects the next byte, whatever it is; \\u digits unchecked",
       "another invalid escape sequence", "behavioural change of the shared scanner design")
-known("KF-C18-06", "C18", "util-bytes", "Indent", r"bytes-differ:missing-trailing-whitespace", r"buf=(empty|prefilled)",
-      'Indent(dst, "[1]   ", "", " ") drops the trailing blanks that encoding/json.Indent keeps',
-      "internal/encoder/indent.go: output ends with the value", "another difference that consists only of missing trailing whitespace",
-      "cosmetic; upstream behaviour since the first release")
+fixed("FX-C18-04", "C18", "3c2a02f", "Indent(dst, \"[1]   \", \"\", \" \") dropped the trailing blanks that encoding/json.Indent (and the function's own doc comment) keep (was KF-C18-06)")
 for n, ctx, same in C18_VALID:
     known("KF-C18-H" + n, "C18", "util-htmlesc", "HTMLEscape", "wrote-on-invalid-text", ctx,
           "HTMLEscape appends the escaped text although encoding/json.Valid rejects it (%s): it writes whatever Valid accepts; same root cause as %s" % (ctx, same),
